@@ -5,13 +5,13 @@ import json, glob, os, re
 ROOT = os.path.dirname(os.path.dirname(os.path.abspath(__file__)))
 out = []
 out.append("## 7. Sensitivity: which checks catch which changes\n")
-out.append("### 7.1 Independently seeded changes (`/verif/seeded/<ID>/<A..F>/`)\n")
+out.append("### 7.1 Independently seeded changes (`/verif/seeded/<ID>/<A..I>/`)\n")
 out.append("Each was written by a fresh helper that saw only the property text and a scratch worktree of /repo (nothing from /verif), "
            "asked for a change that still compiles and passes the 156 tests but needs something specific to manifest. "
            "I confirmed each in a scratch worktree (`tools/seedrun.py`: patch applies, suite passes with it, the demo fails with it and passes without it) "
            "and then ran the checks against a private copy of /repo with the patch applied (never committed to /repo).\n")
 out.append("Rounds: A,B = first round (any realistic change); C,D = second round (asked for narrow triggers: magic lengths, three features at once, "
-           "state carried between calls, two sites that each look fine); E,F = third round (told what A-D did, asked for a different mechanism); G,H = fourth round (told what A-F did; asked for other clauses of the statement and interactions with other features). For A-D the *first run* is the harness at the time the seed arrived; for E-H it is the owner check of the harness as committed before that round (45906c4 / 17888b1), measured afterwards on a copy. "
+           "state carried between calls, two sites that each look fine); E,F = third round (told what A-D did, asked for a different mechanism); G,H = fourth round (told what A-F did; asked for other clauses of the statement and interactions with other features); I = fifth round (one change per property; the seeder was given the summaries of all eight earlier changes of its property and asked for another mechanism and trigger - for C05, C07, C11, C13, C17, C18 and C20 the owner check was strengthened from the seeder's summary before the seed was run, so for these `tools/oldrun.sh` measured the *first run* afterwards with the harness as committed before the round (2a1d7c2); the other thirteen were first run against the check as it stood). For A-D the *first run* is the harness at the time the seed arrived; for E-H it is the owner check of the harness as committed before that round (45906c4 / 17888b1), measured afterwards on a copy. "
            "Column *first run* is the owning check as it was when the seed arrived; *final* is `tools/seedfinal.py`: every stored seed re-applied to a private copy of /repo's final HEAD "
            "and checked by the final harness (owner first, the other checks only when it misses).\n")
 out.append("| seed | what it breaks / what it needs | owning check, first run (quick) | owning check, final | other checks that caught it |")
